@@ -18,6 +18,7 @@ pub fn prop() -> Prop {
       Part { name: "groups", run: run_groups, tape_len: 32, quick_cases: 800_000, thorough_cases: 16_000_000, exhaustive_depth: None, exhaustive_budget: 0, exh_quick: false },
       Part { name: "small", run: run_small, tape_len: 16, quick_cases: 0, thorough_cases: 0, exhaustive_depth: Some(12), exhaustive_budget: 2_000_000, exh_quick: true },
       Part { name: "flatten", run: run_flatten, tape_len: 48, quick_cases: 400_000, thorough_cases: 8_000_000, exhaustive_depth: None, exhaustive_budget: 0, exh_quick: false },
+      Part { name: "taken", run: run_taken, tape_len: 32, quick_cases: 300_000, thorough_cases: 6_000_000, exhaustive_depth: None, exhaustive_budget: 0, exh_quick: false },
     ],
   }
 }
@@ -271,4 +272,105 @@ fn run_flatten(c: &mut dyn Choices, ctx: &Ctx) -> Outcome {
     None
   };
   Outcome { verdict, nontrivial: items >= 2, hash: hash_of(&case), labels: vec!["part:flatten"], notes: vec![], desc }
+}
+
+// ------------------------------------------------ the stream of groups is cut by take(n) ------
+
+/// `hot source . group_by(k) . take(n)`: the consumer of the stream of groups leaves after n groups (n around the number
+/// of distinct keys, so that the announcement of a group is what ends the stream of groups); every group that *was*
+/// announced keeps a probe
+fn run_taken(c: &mut dyn Choices, ctx: &Ctx) -> Outcome {
+  let create_handle = c.flag();
+  let threads = c.pick(3) == 0;
+  let key = gen_keyf(c);
+  let m = c.pick(9);
+  let mut script: Vec<Ev> = (0..m).map(|_| Ev::N(gen_v(c, 4))).collect();
+  match c.pick(3) {
+    0 => {}
+    1 => script.push(Ev::C),
+    _ => script.push(Ev::Er(E(1))),
+  }
+  let cutp = script.iter().position(|e| e.is_terminal()).map(|p| p + 1).unwrap_or(script.len());
+  let mut keys_in_order: Vec<i64> = vec![];
+  for e in &script[..cutp] {
+    if let Ev::N(v) = e {
+      let k = key.eval(v);
+      if !keys_in_order.contains(&k) {
+        keys_in_order.push(k);
+      }
+    }
+  }
+  let n = c.pick(keys_in_order.len() + 2);
+  let announced: Vec<i64> = keys_in_order.iter().copied().take(n).collect();
+  let res = guarded_strict(|| {
+    if threads {
+      crate::threads::exec_group_by_take(create_handle, &script, key, n)
+    } else {
+      crate::local::exec_group_by_take(create_handle, &script, key, n)
+    }
+  });
+  let term = script[..cutp].last().filter(|e| e.is_terminal()).cloned();
+  let check = |log: &[(i64, usize, Ev)]| -> Result<(), (String, String)> {
+    let ann: Vec<i64> = log.iter().filter(|(g, _, e)| *g == -1 && !e.is_terminal()).map(|(_, _, e)| if let Ev::N(v) = e { to_i(v) } else { 0 }).collect();
+    if ann != announced {
+      return Err(("taken-announce".into(), format!("groups announced through take({n}): {ann:?}, expected {announced:?}")));
+    }
+    // every item whose group was announced reaches that group, once, in source order, at its own step - including the
+    // item that opened the last announced group and everything that follows the end of the stream of groups
+    let exp_items: Vec<(i64, usize, Ev)> = script[..cutp]
+      .iter()
+      .enumerate()
+      .filter_map(|(k, e)| if let Ev::N(v) = e { Some((key.eval(v), k, e.clone())) } else { None })
+      .filter(|(g, _, _)| announced.contains(g))
+      .collect();
+    let got_items: Vec<(i64, usize, Ev)> = log.iter().filter(|(g, _, e)| *g != -1 && !e.is_terminal()).cloned().collect();
+    if got_items != exp_items {
+      return Err(("taken-items".into(), format!("items delivered to the announced groups {got_items:?}, expected {exp_items:?}")));
+    }
+    // terminals: at most one per owner, the source's own (the stream of groups: or the completion made by take), last
+    let mut owners = announced.clone();
+    owners.push(-1);
+    for o in owners {
+      let mine: Vec<&(i64, usize, Ev)> = log.iter().filter(|(g, _, _)| *g == o).collect();
+      let terms: Vec<&Ev> = mine.iter().map(|x| &x.2).filter(|e| e.is_terminal()).collect();
+      if terms.len() > 1 {
+        return Err(("taken-terminal".into(), format!("owner {o} got {} terminals", terms.len())));
+      }
+      if let Some(t) = terms.first() {
+        if !mine.last().unwrap().2.is_terminal() {
+          return Err(("taken-terminal-order".into(), format!("owner {o}: something was delivered after the terminal: {mine:?}")));
+        }
+        if o != -1 && Some(*t) != term.as_ref() {
+          return Err(("taken-terminal".into(), format!("group {o} got {t:?}, the source's terminal is {term:?}")));
+        }
+      }
+    }
+    Ok(())
+  };
+  let verdict = match &res {
+    Err(m) => Verdict::Violation { sig: "panic:group_by+take".into(), detail: m.clone() },
+    Ok(log) => match check(log) {
+      Ok(()) => Verdict::Ok,
+      Err((kind, detail)) => Verdict::Violation { sig: format!("{kind}:group_by"), detail },
+    },
+  };
+  let ended_by_announcement = n >= 1 && n <= keys_in_order.len();
+  let mut labels = vec!["part:taken", if create_handle { "src:create-handle" } else { "src:hot" }];
+  if ended_by_announcement {
+    labels.push("taken:announcement-ends-the-stream-of-groups");
+  }
+  let items_after = ended_by_announcement && {
+    let last = announced[n - 1];
+    script[..cutp].iter().filter(|e| matches!(e, Ev::N(v) if key.eval(v) == last)).count() >= 2
+  };
+  let desc = if ctx.want_desc || matches!(verdict, Verdict::Violation { .. }) {
+    Some(json!({
+      "source": if create_handle {"hot create handle"} else {"hot Subject"}, "key": format!("{key:?}"), "script": evs_short(&script), "take": n,
+      "groups": if threads {"SubjectThreads"} else {"Subject"},
+      "log(group|-1=outer, step, event)": res.as_ref().map(|l| json!(l.iter().map(|(g,s,e)| format!("{}:{}@{}", g, ev_short(e), if *s==usize::MAX {-1} else {*s as i64})).collect::<Vec<_>>())).unwrap_or_else(|m| json!({"panic": m})),
+    }))
+  } else {
+    None
+  };
+  Outcome { verdict, nontrivial: items_after, hash: hash_of(&(create_handle, threads, key, &script, n)), labels, notes: vec![], desc }
 }
